@@ -628,4 +628,135 @@ example : rowsAre ((load f4).bind (fun m => stamp m ["heads"] ["a", "b"])) ["b",
 example : rowsAre ((load f4).bind (fun m => stamp m ["c"] ["a", "b"])) ["b", "c"] = true := by decide +kernel
 example : rowsAre ((load f4).bind (fun m => stamp m ["base"] ["c", "b"])) [] = true := by decide +kernel
 
+
+/-! ### `stamp <branch>@head` -/
+section
+open C16
+
+/-- `_resolve_revision_number("<branch>@head")`: the heads sharing the branch's lineage -/
+theorem resolveNumber_branch_head (m : LMap) (n : Nat) (hsub : ∀ x ∈ m.heads, x ∈ m.ids) (L : String) (br : Id)
+    (hb : BranchName m L br) :
+    resolveRevisionNumber m (n + 6) (L ++ "@head") =
+      match m.heads.filter (fun t => sharesLineage m t [br] false) with
+      | [] => .ok ([], some L)
+      | [x] => .ok ([x], some L)
+      | _ => .error .multipleHeads := by
+  have hb' := hb
+  obtain ⟨hat, hne, h1, h2, h3, hlk⟩ := hb
+  have hLe : L.isEmpty = false := by
+    cases hq : L.isEmpty
+    · rfl
+    · exact absurd (String.isEmpty_iff.mp hq) hne
+  have e : L ++ "@head" = L ++ "@" ++ "head" := by simp [String.append_assoc]
+  have hsplit := splitFirstAt_at L "head" hat
+  have hfk := filterKeys_name m n L br hb' m.heads hsub
+  rw [e]
+  unfold resolveRevisionNumber currentHead
+  simp only [hsplit, hLe, hfk, bind, Except.bind, pure, Except.pure]
+  cases hf : m.heads.filter (fun t => sharesLineage m t [br] false) with
+  | nil => simp
+  | cons x rest =>
+    cases rest with
+    | nil => simp
+    | cons y r => simp [throw, throwThe, MonadExceptOf.throw]
+
+theorem resolveShares_branch_head (m : LMap) (hsub : ∀ x ∈ m.heads, x ∈ m.ids) (L : String) (br x : Id)
+    (hb : BranchName m L br) (hx : m.heads.filter (fun t => sharesLineage m t [br] false) = [x]) :
+    resolveShares m 12 (L ++ "@head") = .ok [br, x] := by
+  have hxh : x ∈ m.heads := by
+    have : x ∈ m.heads.filter (fun t => sharesLineage m t [br] false) := by rw [hx]; exact List.mem_cons_self
+    exact (List.mem_filter.mp this).1
+  have hne : L.isEmpty = false := by
+    cases hq : L.isEmpty
+    · rfl
+    · exact absurd (String.isEmpty_iff.mp hq) hb.2.1
+  unfold resolveShares
+  rw [resolveNumber_branch_head m 5 hsub L br hb, hx]
+  simp only [bind, Except.bind, pure, Except.pure, hne, Bool.false_eq_true, if_false, List.cons_append, List.nil_append,
+    List.mapM_cons, List.mapM_nil, revisionForIdent_id m 10 x (hsub x hxh)]
+  have hL : revisionForIdent m 11 L none = .ok (some br) := by
+    unfold revisionForIdent
+    simp [hb.2.2.2.2.2, bind, Except.bind, pure, Except.pure]
+  simp [hL, bind, Except.bind, pure, Except.pure]
+
+theorem getRevisions_branch_head (m : LMap) (hsub : ∀ x ∈ m.heads, x ∈ m.ids) (hleg : ∀ i ∈ m.ids, negInt? i = none)
+    (L : String) (br x : Id)
+    (hb : BranchName m L br) (hx : m.heads.filter (fun t => sharesLineage m t [br] false) = [x]) :
+    getRevisions m (L ++ "@head") = .ok [some x] := by
+  have hxm : x ∈ m.heads.filter (fun t => sharesLineage m t [br] false) := by rw [hx]; exact List.mem_cons_self
+  obtain ⟨hxh, hxs⟩ := List.mem_filter.mp hxm
+  have hne : L.isEmpty = false := by
+    cases hq : L.isEmpty
+    · rfl
+    · exact absurd (String.isEmpty_iff.mp hq) hb.2.1
+  unfold getRevisions resolveFuel
+  rw [resolveNumber_branch_head m 6 hsub L br hb, hx]
+  have hrb : resolveBranch m 11 L = .ok (some br) := by unfold resolveBranch; simp [hb.2.2.2.2.2]
+  have hrev : revisionForIdent m 12 x (some L) = .ok (some x) := by
+    unfold revisionForIdent
+    simp [hne, hrb, lookup_id m x (hsub x hxh), hxs, bind, Except.bind, pure, Except.pure]
+  simp [bind, Except.bind, pure, Except.pure, hleg x (hsub x hxh), hrev]
+
+/-- **`stamp <branch>@head`, the command**: when `<branch>` (a branch label, or a full revision
+id) has exactly one head `x` in its `down_revision` lineage, `stamp <branch>@head` from an
+antichain of rows ends exactly where `stamp x` ends: `(rows \ lineage(x)) ∪ {x}`, an antichain,
+and no statement fails — although the first filter of `_stamp_revs` also picks up the rows that
+share a lineage only with the revision *carrying* the label (the repaired F15). -/
+theorem stamp_branch_head {m : LMap} (L : Loaded m) (hsub : ∀ x ∈ m.heads, x ∈ m.ids)
+    (hleg : ∀ i ∈ m.ids, negInt? i = none)
+    (R : List Id) (hR : Antichain m R) (hRf : FullIds m R)
+    (B : String) (br x : Id) (hb : BranchName m B br) (hpx : C16.Plain x)
+    (hx : m.heads.filter (fun t => sharesLineage m t [br] false) = [x]) :
+    ∃ R', stamp m [B ++ "@head"] R = .ok R' ∧ RowSet R' (fun y => (y ∈ R ∧ ¬ Lineage m x y) ∨ y = x) ∧ Antichain m R' := by
+  have hxh : x ∈ m.heads := by
+    have : x ∈ m.heads.filter (fun t => sharesLineage m t [br] false) := by rw [hx]; exact List.mem_cons_self
+    exact (List.mem_filter.mp this).1
+  have hxi := hsub x hxh
+  let rem := dedupe (R.filter (fun t => sharesLineage m t [br, x] true))
+  have hmemrem : ∀ y, y ∈ rem ↔ y ∈ R ∧ sharesLineage m y [br, x] true = true := by
+    intro y; simp [rem, mem_dedupe, List.mem_filter]
+  obtain ⟨steps, tr, h1, h2, h3, h4⟩ := several L [x] R rem hR ⟨by simp, by simp⟩
+    (by intro d hd; simp at hd; subst hd; exact ⟨hxi, hpx⟩)
+    (dedupe_nodup _) (fun y hy => ((hmemrem y).mp hy).1)
+    (by
+      intro d hd y hy hl
+      simp at hd; subst hd
+      refine (hmemrem y).mpr ⟨hy, ?_⟩
+      have := (sharesLineage_iff L d y).mpr hl
+      unfold sharesLineage at this ⊢
+      simp only [List.isEmpty_cons, Bool.false_eq_true, if_false, if_true, List.any_cons, List.any_nil, Bool.or_false] at this ⊢
+      simp [this])
+  refine ⟨tr.getLastD R, ?_, ⟨h3.nodup, ?_⟩, h4⟩
+  · unfold stamp stampRevs
+    have hne : (B ++ "@head").isEmpty = false := by
+      cases hq : (B ++ "@head").isEmpty
+      · rfl
+      · have := String.isEmpty_iff.mp hq
+        have h2 : (B ++ "@head").length = 0 := by rw [this]; rfl
+        simp [String.length_append] at h2
+    have hgm : getRevisionsMany m [B ++ "@head"] = .ok [some x] := by
+      unfold getRevisionsMany
+      simp [getRevisions_branch_head m hsub hleg B br x hb hx, bind, Except.bind, pure, Except.pure]
+    have hff : filterForLineage m R (B ++ "@head") true = .ok (R.filter (fun t => sharesLineage m t [br, x] true)) := by
+      unfold filterForLineage resolveFuel
+      simp [resolveShares_branch_head m hsub B br x hb hx, bind, Except.bind, pure, Except.pure]
+    simp only [getRevisionsMany_full m R hRf, bind, Except.bind, filterMap_id_map_some, List.isEmpty_cons,
+      Bool.false_eq_true, if_false, List.mapM_cons, List.mapM_nil, hne, hff, pure, Except.pure, hgm,
+      List.flatten_cons, List.flatten_nil, List.append_nil]
+    have : stampLoop m rem [some x] = .ok steps := by simpa using h1
+    simp only [rem] at this
+    simp [this, h2]
+  · intro y; rw [h3.iff y]; simp
+
+end
+
+/-- the history of the repaired F15: `lib`'s root `a` (label `lib`), `b <- a`, and `x` whose only link to the
+    branch is `depends_on a`; rows `{a, x}`: `stamp lib@head` moves `a` to `b` and keeps `x` -/
+def f15 : Hist := [⟨"a", [], [], ["lib"]⟩, ⟨"b", ["a"], [], []⟩, ⟨"x", [], ["a"], []⟩]
+
+example : rowsAre ((load f15).bind (fun m => stamp m ["lib@head"] ["a", "x"])) ["x", "b"] = true := by decide +kernel
+example : (match load f15 with
+    | .ok m => decide (m.lookup "lib" = some "a") && (m.heads.filter (fun t => sharesLineage m t ["a"] false) == ["b"])
+    | .error _ => false) = true := by decide +kernel
+
 end C05
